@@ -418,8 +418,56 @@ def epoch_rules(ctx):
     guarded(ctx, "EBR.activity", R + "scan::all_threads::type::scan::(lambda0)::operator()", le, crit, True, label="epoch|in-critical",
             why="a thread outside a critical region (or exited) must not prevent the epoch from advancing")
     guarded(ctx, "EBR.activity", R + "scan::n_threads::type::scan", le, crit, True, label="epoch|in-critical")
+    # incremental scan (DEBRA style): the block whose state licenses the advance of the cursor is the block the cursor designates NOW
+    ctx.rule("EBR.scan-cursor", "incremental epoch scan (scan::n_threads): the control block that is tested is the one the cursor currently designates - a local alias "
+                                "of *thread_iterator is re-evaluated after every advance of the cursor; the scan reports completion only when the cursor reached the end")
+    for fn in flow._shapes(ctx, R + "scan::n_threads::type::scan"):
+        incs = [e for b, i, e, n in fn.events() if n["k"] in ("un", "call") and (n.get("op") == "++" or n.get("callee", "").endswith("operator++")) and
+                fn.kids(e) and flow.has_src(fn, fn.kids(e)[0], "field:thread_iterator")]
+        tests = flow.find(fn, crit) + flow.find(fn, le)
+        inst = R + "scan::n_threads::type::scan#tests-current-block"
+        if not incs or not tests:
+            ctx.bad("EBR.scan-cursor", inst, "cursor advance (%d) / block tests (%d) not found" % (len(incs), len(tests)), fn.where(), fn=fn)
+            continue
+        bad = None
+        for t in tests:
+            obj = fn.kids(t)[0]
+            if not flow.has_src(fn, obj, "field:thread_iterator"):
+                bad = (t, "the tested block is not derived from the scan cursor")
+                continue
+            for x in fn.subtree(obj):
+                xn = fn.nodes[x]
+                if xn["k"] == "ref" and xn.get("dk") == "local":
+                    dpos = flow.def_event_pos(fn, xn["name"])
+                    tpos = fn.pos().get(t)
+                    for inc in incs:
+                        stale = dpos is None or (fn.event_reaches(inc, t, removed_blocks={dpos[0]}) and not (tpos and dpos[0] == tpos[0] and dpos[1] < tpos[1]))
+                        if stale:
+                            bad = (t, "'%s' is an alias of *thread_iterator taken before the cursor advances (line %d) and is not re-evaluated afterwards: after the first "
+                                      "advance the loop keeps testing the old block and steps over threads that are still in a critical region of an old epoch" % (
+                                          xn["name"], fn.nodes[inc].get("l", 0)))
+        ctx.check(bad is None, "EBR.scan-cursor", inst, "every tested block is the cursor's current block", bad[1] if bad else "", fn.where(bad[0]) if bad else fn.where(), fn=fn)
+        for r in [e for e in flow.find(fn, {"k": "return"}) if fn.kids(e) and flow.const_value(fn, fn.kids(e)[0]) == 1]:
+            ok, path, n = flow.only_via_want(fn, r, flow.cmp_want(lambda f, x: flow.has_src(f, x, "field:thread_iterator"), lambda f, x: flow.has_src(f, x, "call:end")))
+            ctx.check(ok and n > 0, "EBR.scan-cursor", R + "scan::n_threads::type::scan#complete|cursor==end", "scan reports completion only when the cursor reached the end of the list",
+                      "the incremental scan reports 'all threads checked' without the cursor having reached the end of the thread list", fn.where(r), fn=fn)
+        for inc in incs:
+            ok, path, n = flow.only_via_want(fn, inc, _may_advance_want(crit, le))
+            ctx.check(ok and n > 0, "EBR.scan-cursor", R + "scan::n_threads::type::scan#advance|block-passed", "the cursor advances only past a block that is outside a critical region or in the current epoch",
+                      "the scan cursor advances past a control block without having established that the thread is outside a critical region or has observed the current epoch", fn.where(inc), fn=fn)
     # the flag is cleared when the outermost critical region is left; abandon strategy applied afterwards
     chain(ctx, rid, TD + "clear_critical_region_flag", [{"k": "call", "field": "is_in_critical_region", "op": "store", "desc": "flag clear"}], label="clears-flag")
+
+
+def _may_advance_want(crit, le):
+    """want function: `!in_critical_region` (flag load false) or `local_epoch == epoch` (equal)"""
+    eq = flow.cmp_want(lambda f, x: flow.node_matches(f, x, le) or flow.has_src(f, x, "load:local_epoch"), lambda f, x: flow.has_src(f, x, "param#0"))
+
+    def want(fn, nid):
+        if flow.node_matches(fn, nid, crit):
+            return False
+        return eq(fn, nid)
+    return want
 
 
 def _number_epochs(ctx, pat, rid, minimum=3):
@@ -703,6 +751,63 @@ def list_push_rules(ctx):
             ctx.check(dominated and not cyc, rid, inst, "tail->next = %s is (re)written before every CAS attempt" % exp,
                       "the CAS on %s can be retried without re-linking the tail of the pushed list to the refreshed expected head: nodes pushed by other threads in "
                       "between are lost, or the list links into nodes another thread already adopted (double destruction / cycle)" % field, fn.where(c), fn=fn)
+    # the node whose link is written must be the LAST node of the list that is handed over (finite execution of the walk that finds it)
+    from .walk import ListWalk, Stuck
+    rid_t = "LIST.true-tail"
+    ctx.rule(rid_t, "hand-over of a whole list (abandoned retired nodes, thread-local LFRC free list): the node that is linked to the old head is the last node "
+                    "of the list and the node that becomes the new head is its first node - the walk that finds the tail is executed on lists of 1..5 nodes "
+                    "(finite evaluation of a pure pointer walk)")
+    pat = R + "detail::thread_block_list::abandon_retired_nodes"
+    for fn in flow._shapes(ctx, pat):
+        cas = flow.find(fn, {"k": "call", "field": "abandoned_retired_nodes", "kind": "cas"})
+        links = [e for b, i, e, n in fn.events() if n["k"] == "bin" and n["op"] == "=" and fn.nodes[fn.kids(e)[0]]["k"] == "member" and
+                 fn.nodes[fn.kids(e)[0]].get("leaf") == "next" and flow.has_src(fn, fn.kids(e)[1], "load:abandoned_retired_nodes")]
+        if not cas or not links or not fn.params:
+            ctx.broken.append("abandon_retired_nodes: push idiom not recognised")
+            continue
+        bad = None
+        try:
+            for n_ in range(1, 6):
+                w = ListWalk(fn, n_)
+                w.env[fn.params[0]["name"]] = 1
+                stop_at = w.run(lambda f, e: f.atomic(e) is not None)
+                if stop_at is None:
+                    raise Stuck("no shared operation reached")
+                tail = w.ev(fn.kids(fn.kids(links[0])[0])[0])
+                first = w.ev(fn.kids(cas[0])[2])
+                if tail != n_ or first != 1:
+                    bad = (n_, tail, first)
+                    break
+        except Stuck as ex:
+            ctx.broken.append("abandon_retired_nodes: tail walk not executable (%s)" % ex)
+            continue
+        ctx.exhaustive[rid_t] = True
+        ctx.check(bad is None, rid_t, pat + "#links-true-tail", "for lists of 1..5 nodes the linked node is the last and the installed node the first",
+                  "for a list of %d retired nodes the node linked to the old head is node #%s (the last is #%d) and node #%s is installed: the nodes behind the linked "
+                  "one are cut off and never destroyed" % (bad[0] if bad else 0, bad[1] if bad else "", bad[0] if bad else 0, bad[2] if bad else ""), fn.where(links[0]), fn=fn)
+    pat = R + "lock_free_ref_count::enable_concurrent_ptr::free_list::thread_local_free_list::~thread_local_free_list"
+    for fn in ctx.facts.shapes(pat):
+        adds = flow.find(fn, call("add_nodes"))
+        if not adds:
+            ctx.bad(rid_t, pat + "#hands-over", "the thread-local free list is not handed to the global free list at thread exit", fn.where(), fn=fn)
+            continue
+        bad = None
+        try:
+            for n_ in range(1, 6):
+                w = ListWalk(fn, n_, head_field="head")
+                stop_at = w.run(lambda f, e: e in adds)
+                if stop_at is None:
+                    raise Stuck("add_nodes not reached for a non-empty list")
+                args = fn.kids(adds[0])[-2:]
+                first, last = w.ev(args[0]), w.ev(args[1])
+                if first != 1 or last != n_:
+                    bad = (n_, first, last)
+                    break
+        except Stuck as ex:
+            ctx.broken.append("~thread_local_free_list: walk not executable (%s)" % ex)
+            continue
+        ctx.check(bad is None, rid_t, pat + "#first-last", "for lists of 1..5 nodes add_nodes(first, last) receives the true first and last node",
+                  "for a local free list of %d nodes add_nodes receives (first #%s, last #%s)" % (bad or (0, 0, 0)), fn.where(adds[0]), fn=fn)
     # stamp-it: the multi-chunk chain built by process_global_nodes is handed back with the (first, last) overload
     S = R + "stamp_it::thread_data::process_global_nodes"
     for fn in flow._shapes(ctx, S):
